@@ -748,7 +748,7 @@ def run_case(case, ctx):
             outs.append(o)
             if o is None:
                 continue
-            W = _check_outputs(ctx, case, tag, o, src, lists, nbt, (s, u, c), sfx)
+            _check_outputs(ctx, case, tag, o, src, lists, nbt, (s, u, c), sfx)
             if tag == "A":
                 _check_loader(ctx, case, out, o, sfx)
             # non-triviality: measured on what was actually selected
